@@ -356,7 +356,13 @@ fn gen(ctx: &GenCtx, i: u64) -> Option<Run> {
                 let l = r.usize(300);
                 format!("{}{}.{}", hdr, b64(&r.bytes(l)), b64(&r.bytes_upto(20)))
             }
-            4 if r.chance(1, 2) => ".".repeat(r.usize(8)),
+            4 if r.chance(1, 3) => ".".repeat(r.usize(40)),
+            4 if r.chance(1, 2) => {
+                // many segments (beyond any small fixed number a parser might reserve room for)
+                let n = 1 + r.usize(24);
+                let segs: Vec<&str> = (0..n).map(|_| *r.pick(&["", "QUJD", "@", "A", "v4", "local", "public"])).collect();
+                if r.chance(1, 2) { format!("{}{}", proto.header(), segs.join(".")) } else { segs.join(".") }
+            }
             4 => {
                 // a body segment made of (or containing several) multi-byte characters: its length in
                 // characters, in bytes and in base64 quanta all differ
